@@ -114,6 +114,7 @@ type env struct {
 	incon  atomic.Bool
 	idSeq  int
 
+	guard       bool         // NewReader calls are supervised (verifyCrc group)
 	gcSeq       atomic.Int64 // odd while a disk collector pass runs
 	maxAofFiles int
 	verified    atomic.Int64
@@ -132,6 +133,9 @@ func (e *env) violate(sig, what string, extra map[string]any) {
 		// one witness per history is enough; later alarms of the same history are usually
 		// consequences of the first
 		return
+	}
+	if e.guard && !strings.Contains(sig, "verifycrc") {
+		sig += "|verifycrc=true"
 	}
 	w := map[string]any{"config": e.cfg, "history": e.h.Events()}
 	for k, v := range extra {
@@ -529,7 +533,7 @@ func (e *env) liveReaders() []*rdr {
 func (e *env) openReader(who string, rid string, off int64, s1 int64, e1 int) (*rdr, error) {
 	c := e.h.Call(who, "NewReader", fmt.Sprintf("%s:%d", rid, off))
 	gen := e.gen.Load()
-	rd, err := e.ch.NewReader(syncer.Offset{RunId: rid, Offset: off})
+	rd, err := e.guardedNewReader(rid, off)
 	e2 := e.m.CurID()
 	s2 := e.m.ChangeSeq()
 	if err != nil {
@@ -558,6 +562,47 @@ func (e *env) openReader(who string, rid string, off int64, s1 int64, e1 int) (*
 	return r, nil
 }
 
+var errHung = errors.New("NewReader did not return")
+
+// guardedNewReader calls NewReader; if the call does not return it inspects the goroutine stacks:
+// a goroutine that waits for the read lock of Storer.dataSetMux below Storer.GetReader, which
+// holds the write lock of the same mutex, waits for itself — a structural fact, not a timing one.
+func (e *env) guardedNewReader(rid string, off int64) (syncer.ChannelReader, error) {
+	if !e.guard {
+		return e.ch.NewReader(syncer.Offset{RunId: rid, Offset: off})
+	}
+	type res struct {
+		rd  syncer.ChannelReader
+		err error
+	}
+	ch := make(chan res, 1)
+	go func() {
+		rd, err := e.ch.NewReader(syncer.Offset{RunId: rid, Offset: off})
+		ch <- res{rd, err}
+	}()
+	for i := 0; ; i++ {
+		select {
+		case r := <-ch:
+			return r.rd, r.err
+		case <-time.After(1500 * time.Millisecond):
+		}
+		buf := make([]byte, 4<<20)
+		buf = buf[:runtime.Stack(buf, true)]
+		for _, g := range strings.Split(string(buf), "\n\n") {
+			if strings.Contains(g, "store.(*Storer).GetReader") && strings.Contains(g, "store.(*Storer).getDataSet") && strings.Contains(g, "RWMutex).RLock") {
+				e.violate(fmt.Sprintf("iii-unreadable|%s|newreader-self-deadlock|verifycrc=%v", e.be(), config.GetSyncerConfig().Channel.VerifyCrc),
+					fmt.Sprintf("(iii) IsValidOffset said offset %d is readable; NewReader never returns: Storer.GetReader holds dataSetMux for writing and, through AofRotateReader.isCorrupted → hasWriter → getDataSet, waits for the same mutex for reading", off),
+					map[string]any{"goroutine": strings.Split(g, "\n")})
+				return nil, errHung
+			}
+		}
+		if i > 20 {
+			e.inconclusive("watchdog: NewReader(%d) did not return", off)
+			return nil, errHung
+		}
+	}
+}
+
 func (e *env) startReader(r *rdr) {
 	if r.started.Swap(true) {
 		return
@@ -581,6 +626,18 @@ func (e *env) consume(r *rdr) {
 		if n > 0 {
 			e.verified.Add(int64(n))
 			if mm := r.rc.Verify(buf[:n]); mm != nil && !r.bad.Swap(true) {
+				if len(mm.Got) < 16 { // a short read: look at what follows to identify the bytes
+					if br.Buffered() < 16 {
+						time.Sleep(20 * time.Millisecond)
+					}
+					k := br.Buffered()
+					if k > 16 {
+						k = 16
+					}
+					if more, _ := br.Peek(k); len(more) > 0 {
+						e.m.Extend(mm, more)
+					}
+				}
 				kind := "current"
 				if !r.current || r.gen != e.gen.Load() {
 					kind = "invalidated"
@@ -662,16 +719,19 @@ func (e *env) waitReader(r *rdr, n int64, stop func() bool) waitResult {
 	}
 }
 
-// starved: disk backend, stream reader, the writer has finished (nothing will be appended): the
-// next offset the reader owes is in no segment file any more and the reader has made no
-// progress for over a second (its own poll interval is 10 ms), so it can never progress: the
-// collector removed a segment the reader still needed.  Files are only ever removed in this
-// state, so the fact is stable.
+// starved: disk backend, stream reader: the next offset the reader owes has certainly been stored
+// (it is below the confirmed right edge) but is in no segment file any more, and the reader has
+// made no progress for over a second (its own poll interval is 10 ms): it can never progress, the
+// collector removed a segment the reader still needed.  A stored offset whose file is gone never
+// comes back, so the fact is stable.
 func (e *env) starved(r *rdr) bool {
-	if e.base == "" || !r.isAof || e.w == nil || !e.w.ended || r.term.Load() {
+	if e.base == "" || !r.isAof || r.term.Load() {
 		return false
 	}
 	next := r.start + r.rc.Pos()
+	if lo, _, ok := e.m.Cur().AofBounds(); !ok || next >= lo {
+		return false // the byte may not be stored yet
+	}
 	covered := false
 	filepath.Walk(e.base, func(p string, info os.FileInfo, err error) error {
 		if err != nil || info.IsDir() || !strings.HasSuffix(p, ".aof") {
@@ -773,6 +833,9 @@ func (e *env) expectReadable(f facts, off int64, why string) bool {
 	s1 := e.m.ChangeSeq()
 	r, err := e.openReader("probe", f.rid, off, s1, e.m.CurID())
 	ctx := map[string]any{"offset": off, "said_by": why, "snapshot_state": f.snapshot, "model": fmt.Sprintf("%+v", f)}
+	if err == errHung {
+		return false
+	}
 	if err != nil {
 		e.violate(fmt.Sprintf("iii-unreadable|%s|%s|newreader-error|snapshot=%s", e.be(), why, f.snapshot),
 			fmt.Sprintf("(iii)/(iv)/(v) the cache reported offset %d readable (%s) but NewReader failed: %v", off, why, err), ctx)
@@ -1072,7 +1135,7 @@ func (e *env) openAt(class string, delayed bool) *rdr {
 	}
 	rd, err := e.openReader("rd", rid, x, s1, e1)
 	if err != nil {
-		if v {
+		if v && err != errHung {
 			e.violate(fmt.Sprintf("iii-unreadable|%s|valid|newreader-error|snapshot=%s", e.be(), f.snapshot),
 				fmt.Sprintf("(iii) IsValidOffset(%d)=true, nothing happened in between, NewReader failed: %v", x, err), map[string]any{"model": fmt.Sprintf("%+v", f)})
 		}
@@ -1143,6 +1206,11 @@ func (e *env) sequential() {
 			if rng.Intn(4) == 0 {
 				size = int64(1 + rng.Intn(40))
 			}
+			if e.guard {
+				// with verifyCrc the snapshot reader checks the RDB checksum trailer, which PRF
+				// bytes do not carry; files of at most 8 bytes are exempt from that check
+				size = int64(1 + rng.Intn(8))
+			}
 			if !e.rdbPhase(left, size) || e.stopped() {
 				continue
 			}
@@ -1177,6 +1245,68 @@ func (e *env) sequential() {
 			break
 		}
 		e.endWriter([]string{"eof", "eof", "close"}[rng.Intn(3)])
+		e.catchUp("writer finished")
+		e.probe(fmt.Sprintf("end of session %d", s))
+	}
+	e.finishHistory()
+}
+
+// directedStaleReader: a shape the random generator reaches rarely, generated directly (sizes
+// still PRNG): a reader is obtained at the left edge but its caller is slow to start it; the
+// cache is reset by a full resync that begins at the same replication offset (an idle source)
+// and the new stream rotates through several segments; then the old reader is started.  It may
+// deliver the bytes of its own epoch it still holds, or nothing; never the new epoch's.
+func (e *env) directedStaleReader() {
+	rng := e.rng
+	src := e.newID()
+	left := 1 + rng.Int63n(1<<20)
+	seg := int(e.cfg.LogSize)
+	var stale []*rdr
+	for s := 0; s < 2 && !e.stopped(); s++ {
+		e.startPoint([]string{src})
+		e.h.Note("session %d mode=full (directed: stale reader, same left)", s)
+		e.delRunId(e.ch.RunId())
+		e.setRunId(src)
+		size := int64(1 + rng.Intn(2*seg))
+		w := e.newRdbWriter(left, size)
+		if w == nil {
+			return
+		}
+		e.push(int(size), false)
+		select {
+		case <-w.done:
+		case <-time.After(watchdog):
+			e.inconclusive("watchdog: snapshot writer did not finish")
+			return
+		}
+		e.endWriter("eof")
+		if e.newAofWriter(left, true) == nil {
+			return
+		}
+		total := (2+rng.Intn(3))*seg + rng.Intn(seg)
+		for fed := 0; fed < total && !e.stopped(); {
+			n := 1 + rng.Intn(seg)
+			e.push(n, true)
+			fed += n
+			if s == 0 && len(stale) < 2 && fed > seg && rng.Intn(2) == 0 {
+				if r := e.openAt([]string{"left", "mid"}[rng.Intn(2)], true); r != nil {
+					stale = append(stale, r)
+				}
+			}
+		}
+		if s == 0 && len(stale) == 0 {
+			if r := e.openAt("left", true); r != nil {
+				stale = append(stale, r)
+			}
+		}
+		if s == 1 {
+			e.feat("same-left-as-previous-epoch")
+			for _, r := range stale {
+				e.startReader(r)
+			}
+			e.push(1+rng.Intn(seg), true)
+		}
+		e.endWriter("eof")
 		e.catchUp("writer finished")
 		e.probe(fmt.Sprintf("end of session %d", s))
 	}
@@ -1927,14 +2057,26 @@ func runCase(run *harness.Run, key string, mode string, i int, procs int) {
 			c.MaxSize = 12 * c.LogSize
 		}
 	}
+	if mode == "verifycrc" {
+		c.Backend = "disk"
+		c.Mode = "sequential"
+	}
 	e := newEnv(run, key, c, rng)
+	e.guard = mode == "verifycrc"
 	defer e.cleanup()
 	if e.ch == nil {
 		return
 	}
-	if mode == "concurrent" {
+	switch {
+	case mode == "verifycrc":
+		e.feat("verifycrc")
+		e.sequential()
+	case mode == "concurrent":
 		e.concurrent()
-	} else {
+	case i%12 == 5 || i%12 == 10: // one disk, one memory history in twelve
+		e.feat("directed.stale-reader")
+		e.directedStaleReader()
+	default:
 		e.sequential()
 	}
 	e.account()
@@ -1963,6 +2105,8 @@ func main() {
 		nSeq = 0
 	case "seq":
 		nConc = 0
+	case "crc":
+		nSeq, nConc = 0, 0
 	}
 	workers := 12
 	runtime.GOMAXPROCS(16)
@@ -1986,6 +2130,15 @@ func main() {
 	}
 	runtime.GOMAXPROCS(16)
 	run.Set("gomaxprocs_groups", []int{2, 4, 16})
+	// the optional checksum verification of segment files when a reader is opened
+	// (channel.verifyCrc=true), disk backend; one history at a time: the setting is global
+	if os.Getenv("C05_ONLY") == "" || os.Getenv("C05_ONLY") == "crc" {
+		config.GetSyncerConfig().Channel.VerifyCrc = true
+		for i := 0; i < run.N(4, 40); i++ {
+			runCase(run, fmt.Sprintf("crc-%d", i), "verifycrc", 2*i, 16)
+		}
+		fmt.Printf("progress: verifyCrc group done, %d violations so far\n", run.ViolationCount())
+	}
 	if run.Counter("histories_with_rotation") == 0 || run.Counter("histories_with_collection_that_removed_data") == 0 {
 		if !run.Replaying() {
 			run.Inconclusive("no history exhibited rotation (%d) or a collection that removed data (%d)", run.Counter("histories_with_rotation"), run.Counter("histories_with_collection_that_removed_data"))
